@@ -2,11 +2,13 @@
 (* Behaviour generator for WorkPull (see Gen_P2P): the histories are executed on the  *)
 (* real controllers by harness/cmd/reliable (wp-replay).                              *)
 EXTENDS WorkPull, Json
-CONSTANTS Depth
+CONSTANTS Depth,
+          Dice      \* random walks: a fault step is kept with probability 1/Dice (spreads faults over the walk); 1 = always
 VARIABLE hist
 Rec(a, w, m, p, c, o) == [a |-> a, w |-> w, m |-> m, pc |-> p, cc |-> c, out |-> o]
 GInit == Init /\ hist = <<Rec("Init", "", [t |-> "init", ws |-> Initial], wp, cc, outs)>>
-GNext == Next /\ hist' = Append(hist, Rec(last'.a, last'.w, last'.m, wp', cc', outs'))
+FaultGate == (last'.a \in {"Drop", "Dup"} /\ Dice > 1) => RandomElement(1..Dice) = 1
+GNext == Next /\ FaultGate /\ hist' = Append(hist, Rec(last'.a, last'.w, last'.m, wp', cc', outs'))
 GSpec == GInit /\ [][GNext]_<<vars, hist>>
 Emit == (Len(hist) < Depth) \/ (PrintT(<<"BEHAVIOUR", ToJson(hist)>>) /\ FALSE)
 Init1 == <<"w1">>
